@@ -14,6 +14,7 @@ package jobconfig
 //@   ensures [C02] name-is-a-function-of-config-and-second: !startTime.IsZero() ==> result == jobNameFor(jobConfigName, startTime.Unix()) && clock == old(clock)
 
 //@ func makeLabels
+//@   locals template: github.com/furiko-io/furiko/apis/execution/v1alpha1.JobTemplateSpec; desiredLabels: k8s.io/apimachinery/pkg/labels.Set; k: string; additionalLabels: map[string]string
 //@   params rjc
 //@   tags C02
 //@   requires rjc != nil
@@ -30,6 +31,7 @@ package jobconfig
 //@   ensures [C02] fresh-map: result != nil && fresh(result)
 
 //@ func makeAnnotations
+//@   locals template: github.com/furiko-io/furiko/apis/execution/v1alpha1.JobTemplateSpec; desiredAnnotations: k8s.io/apimachinery/pkg/labels.Set; k: string; additionalAnnotations: map[string]string
 //@   params rjc, jobType, createTime
 //@   tags C02
 //@   requires rjc != nil
@@ -82,6 +84,7 @@ package jobconfig
 
 // the latest schedule time of the given Jobs (nil if there is none after the zero time)
 //@ func GetLastScheduleTime
+//@   locals lastScheduleTime: k8s.io/apimachinery/pkg/apis/meta/v1.Time
 //@   params jobs
 //@   tags C15
 //@   requires forall i int :: 0 <= i && i < len(jobs) ==> jobs[i] != nil
@@ -94,6 +97,7 @@ package jobconfig
 
 // the latest start time of the given Jobs (nil if none has started)
 //@ func GetLastStartTime
+//@   locals lastStartTime: k8s.io/apimachinery/pkg/apis/meta/v1.Time
 //@   params jobs
 //@   tags C15
 //@   requires forall i int :: 0 <= i && i < len(jobs) ==> jobs[i] != nil
